@@ -227,6 +227,21 @@ pub fn set_foreach(
         }
     }
 
+    // The callback may delete or clear values that are still waiting in this
+    // snapshot: keep the snapshot (and the set and callback) rooted
+    let snapshot_guard = interp.heap.create_guard();
+    snapshot_guard.guard(set_obj.cheap_clone());
+    for root in [&callback, &this_arg] {
+        if let JsValue::Object(obj) = root {
+            snapshot_guard.guard(obj.cheap_clone());
+        }
+    }
+    for value in &entries {
+        if let JsValue::Object(obj) = value {
+            snapshot_guard.guard(obj.cheap_clone());
+        }
+    }
+
     for value in entries {
         // Set.forEach passes (value, value, set) - value is passed twice
         interp.call_function(
